@@ -232,6 +232,108 @@ def case_ttl(rng):
     return "ttl %d %s" % (k, " ".join(ops + epilogue(k)))
 
 
+def case_eng(rng):
+    """engine holders (oracle only): the real stream.Query and the real stream / trace chunked-sync part
+    handlers run while the driver holds its own references; ref conservation afterwards"""
+    k = rng.choice([2, 2, 3])
+    ops = []
+    deleted = {"s": set(), "t": set()}   # a part handler for a deleted day would create a NEW segment object
+
+    def seg():
+        return rng.randrange(k)
+
+    def query():
+        lo, hi = _range(rng, k)
+        return "Q%s%s%s%d%d" % (rng.choice("iit"), rng.choice("nny"), rng.choice("01"), lo, hi)
+
+    def part(e=None):
+        e = e or rng.choice("st")
+        how = rng.choice(["ok", "ok", "ts", "gr", "tb"] + (["sx", "sx", "os"] if e == "t" else []))
+        live = [i for i in range(k) if i not in deleted[e]]
+        if not live:
+            return "I"
+        return "P%s%s%d" % (e, how, rng.choice(live))
+
+    for _ in range(rng.randrange(6, 16)):
+        r = rng.random()
+        if r < 0.22:
+            ops.append("H%s%d" % (rng.choice("st"), seg()))
+        elif r < 0.32:
+            ops.append("R%s%d" % (rng.choice("st"), seg()))
+        elif r < 0.57:
+            ops.append(query())
+        elif r < 0.80:
+            ops.append(part())
+        elif r < 0.88:
+            ops.append("I")
+        elif r < 0.93:
+            e, i = rng.choice("st"), seg()
+            deleted[e].add(i)
+            ops.append("X%s%d" % (e, i))
+        else:
+            ops.append("U%s%d" % (rng.choice("st"), seg()))
+    # a holder, an engine call that touches its segment, then reclaim / delete, then the holder looks
+    e = rng.choice("st")
+    live = [i for i in range(k) if i not in deleted[e]]
+    if not live:
+        return "eng %d %s" % (k, " ".join(ops))
+    i = rng.choice(live)
+    ops += ["H%s%d" % (e, i)]
+    ops += [("Qi%s%s0%d" % (rng.choice("ny"), rng.choice("01"), k - 1)) if e == "s" else "Pt%s%d" % (rng.choice(["sx", "ok", "os", "tb"]), i)]
+    ops += [query() if e == "s" else part("t")]
+    ops += rng.choice([["I"], ["X%s%d" % (e, i)], ["I", "X%s%d" % (e, i)]])
+    ops += ["U%s%d" % (e, i), "R%s%d" % (e, i), "I"]
+    return "eng %d %s" % (k, " ".join(ops))
+
+
+def oracle_eng(line, g):
+    f = line.split()
+    k = int(f[1])
+    ops = f[2:]
+    toks = g.split()
+    if len(toks) != len(ops) + 1:
+        return "malformed driver output (%d tokens for %d ops): %s" % (len(toks), len(ops), g[:200])
+    held = {"s": [0] * k, "t": [0] * k}
+
+    def parse(d):
+        out = {}
+        for e, part in zip("st", d.split("/")):
+            out[e] = []
+            for seg in part.split(","):
+                x = seg.split(".")
+                out[e].append(dict(rc=int(x[0]), idx=x[1] == "1", mbd=x[2] == "1", dir=x[3] == "1"))
+        return out
+    prev = parse(toks[0].split("=", 1)[1])
+    for n, (o, tok) in enumerate(zip(["init"] + ops, toks)):
+        res, d = tok.split("=", 1)
+        cur = parse(d)
+        where = "op #%d %s -> %s" % (n - 1, o, res)
+        if o[0] == "H" and res == "ok":
+            held[o[1]][int(o[2])] += 1
+        elif o[0] == "R" and res == "ok":
+            held[o[1]][int(o[2])] -= 1
+        elif o[0] == "U" and res == "0":
+            return where + ": the driver holds the segment and sees a closed index or no directory"
+        for e in "st":
+            for i in range(k):
+                s, p, H = cur[e][i], prev[e][i], held[e][i]
+                tag = "%s: %s segment %d %s, driver holds %d" % (where, {"s": "stream", "t": "trace"}[e], i, s, H)
+                if s["rc"] < H:
+                    return tag + ": the engine call released a reference it did not own (refCount < holders)"
+                if s["rc"] > H:
+                    return tag + ": the engine call left a reference behind (refCount > holders)"
+                if H > 0 and not (s["idx"] and s["dir"]):
+                    return tag + ": closed or removed while the driver holds it"
+                if s["mbd"] and H == 0 and (s["dir"] or s["idx"]):
+                    return tag + ": flagged and unreferenced but still on disk"
+                if not s["mbd"] and not s["dir"]:
+                    return tag + ": directory lost without a delete"
+                if not p["dir"] and (s["dir"] or s["idx"]):
+                    return tag + ": a removed segment came back"
+        prev = cur
+    return None
+
+
 def case_stress(rng, iters):
     k = rng.choice([3, 4])
     n = rng.choice([4, 8])
@@ -410,7 +512,7 @@ class C14(vlib.Spec):
         "Banyan.Tie.C14." + t for t in ["shape_tie", "decref_tie", "callers_tie"]]
     go_driver = "c14"
     lean_driver = "C14"
-    counts = {"quick": int(os.environ.get("VERIF_C14_N", "2000")), "thorough": int(os.environ.get("VERIF_C14_N", "10000"))}
+    counts = {"quick": int(os.environ.get("VERIF_C14_N", "1600")), "thorough": int(os.environ.get("VERIF_C14_N", "10000"))}
     trusted_base = [
         "Lean 4.33.0 kernel",
         "reading of segment.go into the atomic-step programs of Banyan.C14.tstep (one pc = one atomic action)",
@@ -433,7 +535,9 @@ class C14(vlib.Spec):
             "idle reclaim/retention/forced delete/DeleteExpired/snapshot/metrics/rotation tick/injected reopen failure/"
             "db close), each followed by 'all release; idle-close; retention'; directed streams for the two caller "
             "defects (stats-peek steal, tick leak), database.SelectSegments under a TTL that present segments have outlived and for a second goroutine acquiring during TSTable.Close; "
-            "concurrent stress; non-trivial = distinct case")
+            "concurrent stress; oracle-only 'eng' cases: real stream.Query (index/time order, matching / not matching, "
+            "vectorized / row) and real stream+trace chunked-sync part handlers (success and every failure step) while the "
+            "driver holds its own references – ref conservation; non-trivial = distinct case")
 
     def cases(self, rng, n):
         out = []
@@ -444,6 +548,8 @@ class C14(vlib.Spec):
         for fn, share in mix:
             for _ in range(int(n * share)):
                 out.append(fn(rng))
+        for _ in range(40 if n <= 5000 else 300):
+            out.append(case_eng(rng))
         for _ in range(n_stress):
             out.append(case_stress(rng, stress_iters))
         for _ in range(max(1, n_stress // 3)):
@@ -464,6 +570,9 @@ class C14(vlib.Spec):
                 # a holder lost its reference while stats peeks / expiry scans / retention runs were in the mix
                 return ("known", "F14a", "concurrent stress (mix %s): %s" % (classes, g[:200]))
             return ("violation", "concurrent stress: " + g[:300])
+        if line.startswith("eng "):
+            v = oracle_eng(line, g)
+            return ("violation", v) if v else None
         v = oracle_seq(line, g)
         if not v:
             return None
@@ -480,8 +589,8 @@ class C14(vlib.Spec):
         return ("violation", v)
 
     def compare(self, line, g, l):
-        if line.startswith("stress "):
-            return True
+        if line.startswith("stress ") or line.startswith("eng "):
+            return True   # oracle only: no Lean model of the engines
         return strip_tables(g) == l
 
     def nontrivial(self, line, g):
@@ -492,6 +601,16 @@ class C14(vlib.Spec):
         if f[0] == "stress":
             return line
         head, ops = f[:2], f[2:]
+        if f[0] == "eng":
+            budget = 40
+            i = len(ops) - 1
+            while i >= 0 and budget > 0:
+                cand = ops[:i] + ops[i + 1:]
+                budget -= 1
+                if still_fails(" ".join(head + cand)):
+                    ops = cand
+                i -= 1
+            return " ".join(head + ops)
         tail = []
         k = int(f[1])
         if ops[-4:] == epilogue(k):
